@@ -546,6 +546,29 @@ fn handle(st: &mut State, line: &str) -> String {
                 Err(e) => format!("err\t{}", hex(&format!("{e:?}"))),
             }
         }
+        "evallit" => {
+            // evallit <id> <literal text hex>... -> Evaluator::parse_literal per parameter, run, print the result
+            let id: usize = f[1].parse().unwrap();
+            let p = &st.progs[&id];
+            let mut ev = p.evaluator();
+            let mut bad = None;
+            for (i, t) in f[2..].iter().enumerate() {
+                if let Err(e) = ev.parse_literal(&unhex(t)) {
+                    bad = Some(format!("err\tliteral{i}\t{}", hex(&format!("{e:?}"))));
+                    break;
+                }
+            }
+            match bad {
+                Some(b) => b,
+                None => match ev.run() {
+                    Ok(o) => match o.into_literal() {
+                        Ok(l) => format!("ok\t{}", hex(&format!("{l}"))),
+                        Err(e) => format!("err\tresult\t{}", hex(&format!("{e:?}"))),
+                    },
+                    Err(e) => format!("err\trun\t{}", hex(&format!("{e:?}"))),
+                },
+            }
+        }
         "arg" => {
             // arg <id> <index> <literal text hex> -> parse_arg + as_bits
             let id: usize = f[1].parse().unwrap();
